@@ -1416,3 +1416,32 @@ def diff(a, b, path=""):
                 return d
         return None
     return None if a == b else f"{path}: expected {a!r} observed {b!r}"
+
+
+def diff_all(a, b, path="", limit=12):
+    """EVERY difference between two JSON-like values (a list of texts in the format of `diff`, [] when equal): a
+    difference that belongs to a listed defect must not hide another one in the same file"""
+    out = []
+
+    def go(a, b, path):
+        if len(out) >= limit:
+            return
+        if type(a) != type(b):
+            out.append(f"{path}: {a!r} != {b!r}")
+        elif isinstance(a, dict):
+            for k in sorted(set(a) | set(b)):
+                if k not in a or k not in b:
+                    out.append(f"{path}.{k}: {'missing in expected' if k not in a else 'missing in observed'} ({(b if k not in a else a)[k]!r})")
+                else:
+                    go(a[k], b[k], f"{path}.{k}")
+        elif isinstance(a, list):
+            if len(a) != len(b):
+                out.append(diff(a, b, path))
+            else:
+                for i, (x, y) in enumerate(zip(a, b)):
+                    go(x, y, f"{path}[{x.get('name', i) if isinstance(x, dict) else i}]")
+        elif a != b:
+            out.append(f"{path}: expected {a!r} observed {b!r}")
+
+    go(a, b, path)
+    return out[:limit]
